@@ -222,7 +222,10 @@ Record mesh := mkmesh { nvert : Z; edges : list (Z * Z); adj : list (list Z); bo
 Inductive wspec :=
 | WOne                                   (* weights = "one" *)
 | WLength (pts : list (Z * Z * Z))       (* weights = "length": vertex coordinates (lattice; exact lengths) *)
-| WCustom (wl : list Z).                 (* weights = dict / Attribute: weight of edge e at position e *)
+| WCustom (wl : list Z)                  (* weights = dict / Attribute: weight of edge e at position e *)
+| WFloat (wl : list Z).                  (* weights = "length" on general coordinates: the binary64 length of edge e
+                                            (an exact dyadic) as an integer multiple of 2^-80; answers are then compared
+                                            with a relative tolerance (`wsame`), the float sums being rounded *)
 
 Definition is_vertex (m : mesh) (v : Z) : bool := (0 <=? v) && (v <? nvert m).
 
@@ -251,12 +254,15 @@ Definition ecustom (m : mesh) (wl : list Z) (a b : Z) : Z :=
 
 (* ---- shortest_path *)
 Definition sp_arity (ws : wspec) : nat :=
-  match ws with WOne => sp_one_arity | WLength _ => sp_length_arity | WCustom _ => sp_custom_arity end.
+  match ws with
+  | WOne => sp_one_arity | WLength _ => sp_length_arity | WCustom _ => sp_custom_arity | WFloat _ => sp_length_arity
+  end.
 Definition sp_weight (m : mesh) (ws : wspec) (v nv : Z) : Z :=
   match ws with
   | WOne => sp_one v nv
   | WLength pts => sp_length (elen pts) v nv
   | WCustom wl => sp_custom (ecustom m wl) v nv
+  | WFloat wl => sp_length (ecustom m wl) v nv
   end.
 Definition sp_nbrs (m : mesh) (v : Z) : list Z := znth (adj m) v [].
 
@@ -303,6 +309,7 @@ Section WithQueue.
     | WOne => set_one
     | WLength pts => elen pts a b
     | WCustom wl => ecustom m wl a b
+    | WFloat wl => ecustom m wl a b
     end.
   Definition set_weight (m : mesh) (ws : wspec) (a b : Z) : Z :=
     if Z.eqb a sentinel || Z.eqb b sentinel then sink_weight else set_base_weight m ws a b.
@@ -357,7 +364,15 @@ Fixpoint path_weight (w : Z -> Z -> Z) (p : list Z) : Z :=
 
 (* the weight of an edge as the property means it (symmetric; the three modes) *)
 Definition mweight (m : mesh) (ws : wspec) (a b : Z) : Z :=
-  match ws with WOne => 1 | WLength pts => elen pts a b | WCustom wl => ecustom m wl a b end.
+  match ws with WOne => 1 | WLength pts => elen pts a b | WCustom wl => ecustom m wl a b | WFloat wl => ecustom m wl a b end.
+
+(* equality of path weights as the correspondence means it: exact, except for float lengths on general coordinates
+   where the implementation's sums are rounded: |a - b| <= 1e-9 |b| *)
+Definition wsame (ws : wspec) (a b : Z) : bool :=
+  match ws with
+  | WFloat _ => Z.abs (a - b) * 1000000000 <=? Z.abs b
+  | _ => Z.eqb a b
+  end.
 
 (* hypotheses of the theorems, as boolean checkers evaluated on every case *)
 Definition subset (a b : list Z) : bool := forallb (fun x => mem x b) a.
@@ -375,6 +390,7 @@ Definition weights_ok (m : mesh) (ws : wspec) : bool :=
       forallb (fun e => let d := d2 (znth pts (fst e) (0,0,0)) (znth pts (snd e) (0,0,0)) in Z.eqb (Z.sqrt d * Z.sqrt d) d)
               (edges m)
   | WCustom wl => Nat.eqb (length wl) (length (edges m)) && forallb (fun x => 0 <=? x) wl
+  | WFloat wl => Nat.eqb (length wl) (length (edges m)) && forallb (fun x => 0 <=? x) wl
   end.
 Definition mesh_ok (m : mesh) (ws : wspec) : bool := edges_ok m && adj_ok m && weights_ok m ws.
 
@@ -413,7 +429,7 @@ Definition agree_paths (m : mesh) (ws : wspec) (s : Z) (model impl : list (Z * l
   forallb (fun tp =>
     match lookup model (fst tp) with
     | Some pm => valid_path m s (fst tp) (snd tp) && valid_path m s (fst tp) pm
-                 && Z.eqb (path_weight (mweight m ws) (snd tp)) (path_weight (mweight m ws) pm)
+                 && wsame ws (path_weight (mweight m ws) (snd tp)) (path_weight (mweight m ws) pm)
     | None => false
     end) impl.
 
@@ -421,7 +437,7 @@ Definition agree_paths (m : mesh) (ws : wspec) (s : Z) (model impl : list (Z * l
 Definition agree_set (m : mesh) (ws : wspec) (s : Z) (targets : list Z) (model impl : Z * list Z) : bool :=
   mem (fst impl) targets && mem (fst model) targets
   && valid_path m s (fst impl) (snd impl) && valid_path m s (fst model) (snd model)
-  && Z.eqb (path_weight (mweight m ws) (snd impl)) (path_weight (mweight m ws) (snd model)).
+  && wsame ws (path_weight (mweight m ws) (snd impl)) (path_weight (mweight m ws) (snd model)).
 
 Definition check_query (m : mesh) (ws : wspec) (q : query) (o : obs) : bool :=
   match q with
